@@ -7,11 +7,30 @@ HOOK_COMMITS = subprocess.run(
     capture_output=True, text=True).stdout.strip().splitlines()
 
 # property -> (engine, technique, design_ref, level text, level note)
+ESEQ = "explicit-state BFS over the real server (histories replayed on the real connection tasks, canonical-state dedup), one-step reference model as oracle"
+EFUN = "bounded-exhaustive enumeration of a finite input space through the real code, compared with a reference"
+NOTE = "Trusts the Spec's transcription of the statement and the additive snapshot/gate hooks; bounded participants, alphabet and depth (reported in the evidence); wall-clock fields masked; true multi-core overlap is C18's business."
 CLAIMED = {
- "C04": ("E-SEQ", "explicit-state BFS over the real server (replay-from-root, canonical state dedup) with a one-step reference model and view-agreement oracle",
-         "DESIGN.md §4 C04",
-         "Every history up to the depth bound of JOIN/PART/KICK/NICK/QUIT/EOF by 3 users + an outsider over 2 channels is executed on the real handlers; in every reachable state NAMES/WHO/WHOIS from every viewpoint are compared with each other and the roster, and every announcement with the Spec. Bounded exhaustive, not sampled.",
-         "Trusts the Spec's transcription of the statement and the snapshot hook; bounded participants/depth; true multi-core overlap not explored here (C18)."),
+ "C01": ("E-SEQ", ESEQ + "; PRIVMSG/NOTICE probe battery in every reachable state", "DESIGN.md §4 C01",
+         "Every history of joins/parts/kicks/nick and rank changes/quits up to the depth bound is executed; in every reachable state every user sends PRIVMSG/NOTICE to channel, nick, own nick, comma lists with duplicates and missing names, status-prefixed targets; the deliveries on every socket are compared with the Spec audience (exactly one copy, exact prefix/target/text, nothing elsewhere). Bounded exhaustive.", NOTE),
+ "C04": ("E-SEQ", ESEQ + "; view-agreement (NAMES/WHO/WHOIS) and roster-reconstruction oracles", "DESIGN.md §4 C04",
+         "Every history up to the depth bound of JOIN/PART/KICK/NICK/QUIT/EOF by 3 users + an outsider over 2 channels is executed on the real handlers; in every reachable state NAMES/WHO/WHOIS from every viewpoint are compared with each other and the roster, every announcement with the Spec, and each client's roster is rebuilt from JOIN-time NAMES + announcements.", NOTE),
+ "C05": ("E-SEQ", EFUN + " (line grammar x session states) driven through the E-SEQ engine at depth 1-2", "DESIGN.md §4 C05",
+         "A bounded-exhaustive line grammar (43 verbs x arity 0..max+1 x parameter-shape menus, raw byte payloads, EOF variants) is sent through the real connection loop in 10 session states (thorough: full menus and all ordered pairs of a core alphabet); after every input no task may have aborted, no connection may be closed unless the protocol ends it, and sender and bystanders must still be served.", NOTE),
+ "C07": ("E-SEQ+E-FUN", ESEQ + "; plus product sweep of admission conditions in fresh worlds", "DESIGN.md §4 C07",
+         "The full product of admission conditions (key, supplied key, ban, exception, +i, invitation, invite-exception, limit, quota, membership) and an E-SEQ search with evolving lists; each JOIN is judged against the statement's iff on the Spec state with a reference glob (refusal: nothing changes, matching numeric; acceptance: member, invitation consumed, announced).", NOTE),
+ "C08": ("E-SEQ+E-FUN", ESEQ + "; plus privilege-matrix sweep", "DESIGN.md §4 C08",
+         "Privilege matrix actor rank x letter x sign x target rank (and flag/list/key/limit letters, composite strings) in fresh worlds, and reachability search with 3 members; refused letters leave the channel as it was (482/442), accepted ones are applied, announced to all members (effective <= announced <= permitted), shown by MODE/NAMES/list queries and enforced by JOIN/PRIVMSG/TOPIC/KICK/INVITE.", NOTE),
+ "C09": ("E-SEQ", ESEQ, "DESIGN.md §4 C09",
+         "Every history up to the bound of rank changes, KICK (single, lists, self, absent), TOPIC (set/clear/colon text), INVITE (present/absent/unknown) and JOIN-by-invitation over founder + 2 members + outsider; Spec rank rules; refusal effect-free with the right numeric; announcements to exactly the right sockets; TOPIC/LIST probes in every state.", NOTE),
+ "C10": ("E-SEQ", ESEQ + "; PRIVMSG/NOTICE probes in every state", "DESIGN.md §4 C10",
+         "Every history up to the bound of +n/+m/+s, ban/exception of the sender's mask, voice, sender JOIN/PART/NICK and recipient AWAY; in every state PRIVMSG and NOTICE probes; deliver iff the statement's conjunction, 404 otherwise, NOTICE never answered, 301 with the away text.", NOTE),
+ "C14": ("E-FUN", EFUN + " (recursive/DP glob, three completion rules); wire conformance per caller", "DESIGN.md §4 C14",
+         "Every mask up to length L over {a,b,*,?} against every text up to length L over {a,b,é} through the real match_wildcard (each call under catch_unwind) vs a reference glob; every string <=6 over {n,!,@,*} through normalize_sourcemask; every short mask for 8 callers (+b,+e,+I, speaking, WHO, WHOIS, operator mask, user mask) x 4 identities in a real server world.", NOTE),
+ "C15": ("E-SEQ", ESEQ + "; rename-differential on the whole abstract state", "DESIGN.md §4 C15",
+         "Every history up to the bound in which a user accumulates channels, ranks, modes, away, operator status and invitations and then changes nick to free/own/taken/claimed/released/invalid names; the post-state must equal the pre-state with old->new substituted in every nick-keyed container; NICK announced to the user and all channel peers; refusal effect-free.", NOTE),
+ "C16": ("E-SEQ+E-FUN", ESEQ + "; plus configuration-lattice sweep for predefined channels", "DESIGN.md §4 C16",
+         "Every history up to the bound in which channels are created, configured, emptied by PART/KICK/QUIT/EOF/KILL and re-created (fresh-channel oracle, absence after last exit); every subset of 16 settings of a predefined channel (quick: small and large subsets) through a join/leave/re-join script.", NOTE),
 }
 PENDING = {}
 
@@ -45,6 +64,8 @@ def main():
             "add_only": True,
         },
         "engines": [
+            {"name": "E-FUN", "path": "/verif/mc/src/fun.rs", "serves_properties": [p for p in props if p in CLAIMED and "E-FUN" in CLAIMED[p][0]],
+             "kind_free_text": "bounded-exhaustive enumeration of finite input spaces (strings over small alphabets, configuration lattices, products of conditions) through the real functions or one-step real server worlds"},
             {"name": "E-SEQ", "path": "/verif/mc/src/bfs.rs", "serves_properties": [p for p in props if p in CLAIMED and CLAIMED[p][0].startswith("E-SEQ")],
              "kind_free_text": "explicit-state breadth-first search whose transition function is the real connection task (user_state_process) polled by hand over in-memory streams; one-step reference model as oracle"},
         ],
